@@ -53,6 +53,30 @@ CLAIMED = {
   "Seeded exploration of request histories over 2-3 tenants mixing every pipeline endpoint with own, foreign and unknown keys and pipeline ids, interleaved with management operations and crash+recovery (so foreign requests also hit a freshly rebuilt key index). Invariant after every request: every tenant other than the caller is bit-identical (pipelines, sources, statuses, usage counters, engine checkpoints); foreign requests are refused; responses never contain another tenant's ids or key.",
   "Observable state is read directly from the TenantManager; HTTP socket layer bypassed.",
   "deterministic simulation: request histories with crash/recovery, isolation invariant evaluated around every request"),
+"C12": ("w1-engine", "DESIGN.md §4 C12",
+  "Seeded exploration: tumbling/count/session windows (plain and partitioned), driven both as public structs and through the real Engine pipeline, fed by 1-3 simulated sources with their own event-time clocks on a coarse grid (ties, exact boundaries), with tape-interleaved watermark closes, wall-clock session sweeps incl. wall-clock jumps, stragglers and late arrivals after a watermark close. History oracle: exactly-once conservation incl. the final buffer, arrival order within and across windows per partition, count windows close with exactly N, tumbling end bound and session gap bound for in-order runs.",
+  "Window boundaries of engine-level runs are recovered from which events one call emitted. Only what the statement requires is judged (no greedy-partition model).",
+  "deterministic simulation: event-time sources with delivery disorder, watermark/sweep events on a virtual wall clock, conservation + ordering oracle"),
+"C13": ("w1-engine", "DESIGN.md §4 C13 (weak DST content: in-order single streams, no faults)",
+  "Seeded exploration against a time-indexed reference model per partition: every emission instant and its exact contents for time-sliding, count-sliding and partitioned sliding windows (public structs and Engine pipeline). The property quantifies over in-order streams only, so no fault or schedule is injected; the simulator contributes the discrete-event sources.",
+  "slide <= size; first emission of time-sliding windows and instants exactly on the slide/size boundary are not judged (statement leaves them open).",
+  "deterministic simulation (fault-free configuration) with reference model"),
+"C15": ("w1-engine", "DESIGN.md §4 C15",
+  "Seeded exploration: 2/3-way joins (JoinBuffer directly with per-key cap 2-4, and the real Engine join pipeline) fed by per-source event-time clocks; the disorder batch delivers stragglers after newer-stamped events so expiry and GC see unsorted buffers. Reference model from the statement at every arrival: must-exist / must-not-exist / most-recently-arrived-partner, with boundaries, cap displacement and expiry-by-progress explicitly not judged.",
+  "Partners exactly at +-window, later than t+window, displaced by the cap, or older than the window relative to a newer-stamped earlier arrival are not judged.",
+  "deterministic simulation: multi-source delivery disorder, reference model with explicit not-judged zones"),
+"C19": ("w1-engine", "DESIGN.md §4 C19",
+  "Seeded exploration plus per-history sweep of every cut point: one stateful feature per generated program (all window kinds plain/partitioned, sequences with all/not/within/key predicates, joins, distinct, limit, watermark+lateness), crash = force_checkpoint through the real CheckpointManager/codec/store, engine dropped, fresh engine auto-restores. Oracle: the uninterrupted run, compared output by output. Sub-millisecond runs are attributed to timestamp precision only if the ms-truncated twin of the same case does not diverge.",
+  "Steps with equal outputs in a different order are not judged. Three known findings are listed in known-findings.txt (sub-ms truncation; sliding-count slide counter; partitioned sliding-count not checkpointed); every other divergence is a violation.",
+  "deterministic simulation: crash/restore at arbitrary cuts via the real store path, differential oracle against the uninterrupted run"),
+"C23": ("w1-engine", "DESIGN.md §4 C23",
+  "Seeded exploration: program P (1-4 streams: filter, window, sequence, join), edit P' from a small grammar, reload as a reconfiguration event at any instant of a 6-30 event history (sometimes twice); three engines (never reloaded / reloaded / fresh on P') compared per stream over everything emitted after the reload.",
+  "An unchanged stream inside a changed program may either keep its state or behave like fresh (statement only requires it to keep working).",
+  "deterministic simulation: reconfiguration event in a history, three-engine differential oracle"),
+"C24": ("w1-engine", "DESIGN.md §4 C24",
+  "Seeded exploration: 2-3 sources with own event-time clocks, out-of-order bounds and allowed lateness, stragglers, idle sources that first speak late, external watermark announcements; the real PerSourceWatermarkTracker directly and the real Engine late-data gate. After every delivery: no source watermark decreased, effective == min over sources with a watermark, a dropped event was later than watermark - allowed lateness.",
+  "Tracker state observed through its checkpoint (ms precision, timestamps on a 500 ms grid); every stream has an allowed_lateness; 'diverted' is judged as 'not processed' because VPL cannot configure the side output.",
+  "deterministic simulation: multi-source delivery order, invariants after every delivery"),
 }
 def main():
     hooks = [l.split()[0] for l in subprocess.run(["git","-C","/repo","log","--format=%h %s"],capture_output=True,text=True).stdout.splitlines() if " verif-hook:" in " "+l]
